@@ -1,3 +1,3 @@
-(* _client.py :: _sync_get_key :: ('callarg', 'GetKey', 0, 4) :  l2 *)
+(* _client.py :: _sync_get_key :: shape kernel :  GetKey(... 4: l2  [= l2] ...) *)
 Definition k_onl_getkey_arg4 (l2 : Z) : Z :=
   l2.
